@@ -45,12 +45,14 @@ type Injector struct {
 	n     int
 	Calls []string
 	Fired bool
-	Dead  bool // the process has "crashed": calls made while the panic unwinds (deferred unlocks) never happened
+	// FiredCall is the call the fault was delivered at
+	FiredCall string
+	Dead      bool // the process has "crashed": calls made while the panic unwinds (deferred unlocks) never happened
 	root  string
 }
 
 func (in *Injector) Arm(mode Mode, k int) {
-	in.Armed, in.Mode, in.K, in.n, in.Calls, in.Fired, in.Dead = true, mode, k, 0, nil, false, false
+	in.Armed, in.Mode, in.K, in.n, in.Calls, in.Fired, in.Dead, in.FiredCall = true, mode, k, 0, nil, false, false, ""
 }
 func (in *Injector) Disarm() { in.Armed = false }
 
@@ -67,6 +69,7 @@ func (in *Injector) enter(call string) Mode {
 	in.n++
 	if in.Mode != ModeNone && i == in.K && !in.Fired {
 		in.Fired = true
+		in.FiredCall = call
 		if in.Mode != ModeErr {
 			in.Dead = true
 		}
